@@ -550,7 +550,7 @@ class CloudWorld(World):
                 v = None
             store.append({'name': nm, 'value': v, 'creation': val(o['creation'])})
         order = [l for _, l in sorted(labels.items())]
-        scn = {'kind': 'cloud', 'now': val(self.system_now()), 'page_size': self.page_size, 'secret': blist(self.secret),
+        scn = {'kind': 'cloud', 'now': val(self.system_now()), 'real_clock': self.concrete_now is None, 'page_size': self.page_size, 'secret': blist(self.secret),
                'phases': scn_ph, 'order': order}
         return scn, {'phases': pred_ph, 'store': store}
 
